@@ -38,6 +38,8 @@ def run(eng, rep) -> None:
     rep.rule("R03.1", "visitor exhaustive; every hook overridden; emitted wrapper names/arities exist in decoders.h; free template names bound")
     rep.rule("R03.2", "constructor parameters, FromJson arguments and Decode's constructor arguments iterate in one order; wire loops are id-sorted")
     rep.rule("R03.3", "enum Encode/Decode/GetSize width = enum.get_packed_size()")
+    rep.rule("R03.10", "a generated Encode() starts from an empty buffer, or one pre-sized with no more than the struct's smallest encoding")
+    rep.rule("R03.9", "sizes the generator reads from schema nodes are computed from the node's current content (no value cached at construction from a list that other code changes)")
     rep.rule("R03.6", "carrier selection contains no down-rounding of the bit width (floor division without +7 compensation, floor())")
     rep.rule("R03.5", "container wrappers compile for an element type with only the wrapper interface (clang++ -fsyntax-only witness)")
     rep.rule("R03.4", "C++ wrapper grammars == canonical; Buffer per-bit mapping canonical; cursor advance by width; no lossy sub-byte shift")
@@ -47,6 +49,12 @@ def run(eng, rep) -> None:
     if visit is None:
         raise AnalysisError("anchor vanished: TypeVisitor.visit")
     P = parser_type_classes(eng)
+    # ---- R03.9 ---------------------------------------------------------------------
+    from .stale import stale_derived_attrs
+    stale = stale_derived_attrs(eng)
+    for ci_, cattr, stmt, sattr, mf, mst in stale:
+        rep.violation("R03.9", ci_.file, ci_.qual + ".__init__", norm(stmt, 70), "'%s' is computed once, at construction, from '%s', but %s changes that list afterwards (%s): sizes derived from the cached value (enum packed size -> C++ carrier and bit width) describe the node as it was, not as it is generated" % (cattr, sattr, mf.qual, norm(mst, 60)))
+    rep.ok("R03.9", "-", "-", "values cached on schema nodes at construction", "%d stale candidates" % len(stale))
     # ---- R03.1 ---------------------------------------------------------------------
     tests = {}
     for n in walk_local(visit.node):
@@ -100,6 +108,7 @@ def run(eng, rep) -> None:
     rep.floor("R03.1", "wrapper names emitted by ToCpp", len(emitted), 6)
     # free names of fcp.h.j2 at its render sites
     jb = JinjaBinding(eng)
+    presize_rule(eng, rep, jb)
     sites = [s for s in jb.sites if s.template == "fcp.h.j2"]
     rep.floor("R03.1", "render sites of fcp.h.j2", len(sites), 1)
     tpath = sites[0].path if sites else None
@@ -249,3 +258,76 @@ def r033(eng, rep, t: JTemplate) -> None:
         rep.check("get_packed_size()" in e, "R03.3", t.relpath, "enum block", "using UnderlyingType = %s" % e.strip(), "carrier derives from the packed size",
                   "the enum's carrier type is the constant %s while its width (get_packed_size) is unbounded: enumerator values that do not fit the carrier are truncated" % e.strip())
     rep.check("GetWord(GetSize()" in block.replace(" ", ""), "R03.3", t.relpath, "enum block", "Decode reads GetSize() bits", "decoder width is the same expression as GetSize", "enum Decode does not read GetSize() bits")
+
+
+# ---------------------------------------------------------------- R03.10: pre-sized encode buffers
+MIN_BITS = {"OptionalType": 8, "StringType": 32, "DynamicArrayType": 32}  # smallest canonical encoding of the variable-size constructors
+
+
+def presize_rule(eng, rep, jb) -> None:
+    """`Buffer buffer{N}` in a generated Encode(): the buffer starts with ceil(N / 8) zero bytes and only grows, so N must not exceed
+    the smallest encoding of the struct.  N = 0 (today) is trivially right; a computed N is followed into the Python function that
+    computes it and each type-constructor branch is compared with the constructor's smallest encoding."""
+    prog = eng.prog
+    path = None
+    for rs in jb.sites:
+        if rs.path and rs.path.endswith("fcp.h.j2"):
+            path = rs.path
+    if path is None:
+        rep.undecided("R03.10", "-", "-", "fcp.h.j2", "render site not found")
+        return
+    t = jb.template(path)
+    seq = t.output_sequence(t.ast.body)
+    n_sites = 0
+    for i, (kind, v) in enumerate(seq):
+        if kind != "data" or not re.search(r"\bBuffer\s+\w+\s*[{(]\s*$", v):
+            continue
+        n_sites += 1
+        nxt = seq[i + 1] if i + 1 < len(seq) else None
+        if nxt is None or nxt[0] == "data":
+            continue
+        e = nxt[1]
+        site = "Buffer buffer{ {{%s}} }" % JTemplate.src(e)[:50]
+        if not (isinstance(e, J.Call) and isinstance(e.node, J.Name)):
+            rep.undecided("R03.10", t.relpath, "Encode()", site, "initial size is not a call of a template global")
+            continue
+        g = jb.global_func(e.node.name)
+        if g is None:
+            rep.undecided("R03.10", t.relpath, "Encode()", site, "template global not resolved")
+            continue
+        per_type = None
+        for n in walk_local(g.node):
+            if isinstance(n, ast.Call) and isinstance(n.func, ast.Name):
+                r = prog.resolve_name(g.module, g, n.func.id)
+                if r and r[0] == "func" and r[1] != g.qual and any(isinstance(x, ast.Call) and dotted(x.func) == "isinstance" for x in ast.walk(prog.functions[r[1]].node)):
+                    per_type = prog.functions[r[1]]
+        if per_type is None and any(isinstance(x, ast.Call) and dotted(x.func) == "isinstance" for x in ast.walk(g.node)):
+            per_type = g
+        if per_type is None:
+            rep.undecided("R03.10", g.file, g.qual, site, "no per-type size function found")
+            continue
+        tparam = per_type.params[-1].arg
+        decided = set()
+        for n in walk_local(per_type.node):
+            if not (isinstance(n, ast.If) and isinstance(n.test, ast.Call) and dotted(n.test.func) == "isinstance" and norm(n.test.args[0]) == tparam):
+                continue
+            cl = n.test.args[1]
+            names = [(dotted(c) or "").split(".")[-1] for c in (cl.elts if isinstance(cl, ast.Tuple) else [cl])]
+            rets = [s_ for s_ in n.body if isinstance(s_, ast.Return) and s_.value is not None]
+            for k in names:
+                if k not in MIN_BITS or not rets:
+                    continue
+                decided.add(k)
+                v = rets[0].value
+                rec = [c for c in ast.walk(v) if isinstance(c, ast.Call) and any(isinstance(a, ast.Attribute) and a.attr == "underlying_type" for a in ast.walk(c))]
+                consts = [c.value for c in ast.walk(v) if isinstance(c, ast.Constant) and isinstance(c.value, int)]
+                s2 = "%s: reserve %s" % (k, norm(v, 50))
+                if rec:
+                    rep.violation("R03.10", per_type.file, per_type.qual, s2, "the encode buffer is created with room for the %s's element (%s), but the smallest encoding of %s is %d bits (%s): Buffer(n) starts with ceil(n/8) zero bytes and never shrinks, so the surplus bytes are emitted after the canonical encoding" % (k[:-4], norm(rec[0], 40), k[:-4], MIN_BITS[k], "absent value: flag only" if k == "OptionalType" else "empty: count only"))
+                elif isinstance(v, ast.Constant) and isinstance(v.value, int):
+                    rep.check(v.value <= MIN_BITS[k], "R03.10", per_type.file, per_type.qual, s2, "<= smallest encoding (%d bits)" % MIN_BITS[k], "reserves %d bits, more than the smallest encoding of %s (%d bits): surplus zero bytes are emitted" % (v.value, k[:-4], MIN_BITS[k]))
+                else:
+                    rep.undecided("R03.10", per_type.file, per_type.qual, s2, "size expression not recognised")
+        for k in sorted(set(MIN_BITS) - decided):
+            rep.undecided("R03.10", per_type.file, per_type.qual, "%s: reserve ?" % k, "no branch for this constructor recognised (falls through to a generic size)")
+    rep.ok("R03.10", t.relpath, "Encode()", "Buffer construction sites in the struct template", "%d found" % n_sites)
